@@ -441,6 +441,92 @@ def job_table(job, n, node, kr_desc=False, ref_order=None, effects_only=False):
         job.errors.append(f"table[{n},{node}]: no path constructs the object")
 
 
+def replay_table_between(model, n=3, node=1):
+    """Real from_table with the initial pressure BETWEEN two table rows: m_i is the product of the linear interpolants of the
+    pseudopressure and of its reciprocal at p_i, hence in [1, (1 + r)^2 / (4 r)] with r the ratio of the pseudopressures
+    of the two rows (1 at the rows themselves)."""
+    import warnings
+    import numpy as np
+    from bluebonnet.flow import flowproperties as fp
+    cols = ["Bo", "Bg", "Bw", "Rs", "Rv", "mu_o", "mu_g", "mu_w", "So"]
+    base = {"Bo": 1.2, "Bg": 0.005, "Bw": 1.02, "Rs": 0.4, "Rv": 0.01, "mu_o": 1.5, "mu_g": 0.02, "mu_w": 0.7, "So": 0.6}
+    p = np.array([float(model.get(f"p{k}") or 1000.0 * (k + 1)) for k in range(n)])
+    if np.any(np.diff(p) <= 0):
+        p = 1000.0 * (np.arange(n) + 1)
+    pvt = {"pressure": p, "pseudopressure": np.zeros(n)}
+    for c in cols:
+        pvt[c] = np.array([base[c] * (1 + 0.1 * k) for k in range(n)])
+    krp = {"So": np.array([0.0, 1.0]), "Sg": np.array([1.0, 0.0]), "Sw": np.array([0.0, 0.0]), "kro": np.array([0.0, 0.8]), "krg": np.array([0.7, 0.0]), "krw": np.array([0.0, 0.0])}
+    ref = {"rho_o0": 50.0, "rho_g0": 0.05, "rho_w0": 62.4}
+    problems = []
+    for frac in (float(model.get("s") or 0.5), 0.05, 0.5, 0.95):
+        frac = min(max(frac, 0.01), 0.99)
+        pi = p[node] + frac * (p[node + 1] - p[node])
+        with warnings.catch_warnings():
+            warnings.simplefilter("ignore")
+            with np.errstate(all="ignore"):
+                obj = fp.FlowPropertiesTwoPhase.from_table(pvt, krp, ref, 0.1, 0.1, pi)
+        pp = np.asarray(obj.pvt_props["pseudopressure"], float)
+        r = pp[node + 1] / pp[node]
+        hi = (1 + r) ** 2 / (4 * r)
+        mi = float(obj.m_i)
+        if not (1 - 1e-12 <= mi <= hi * (1 + 1e-9)):
+            problems.append(f"p_i = {pi!r} ({frac:.2f} of the way from row {node} to row {node + 1}): m_i = {mi!r}, outside [1, {hi!r}] "
+                            f"(the product of the two linear interpolants at p_i)")
+    return bool(problems), {"what": "; ".join(problems[:2]) or "m_i within the linear-interpolation band above 1", "inputs": {}}
+
+
+def job_table_between(job, n, node):
+    """from_table with the initial pressure strictly between rows `node` and `node + 1`: the reported m_i is the product of
+    the linear interpolants of the (computed) pseudopressure and of its reciprocal at p_i, i.e. it lies in
+    [1, (1 + r)^2 / (4 r)], r = m[node + 1] / m[node] (the 'linear-interpolation error above 1' of C09's statement)."""
+    rec = {}
+
+    def pp_stub(pressure, So, pvt, kr):
+        vals = [Q(0)]
+        for k in range(1, len(pressure)):
+            vals.append(vals[-1] + fresh(f"dPP{k}", pos=True))
+        rec["pp"] = SymArray(vals, "f8")
+        return rec["pp"]
+
+    def alpha_stub(pressure, So, phi, Sw, pvt, kr):
+        return SymArray([fresh(f"A{k}", pos=True) for k in range(len(pressure))], "f8")
+    mod = load_sym("bluebonnet.flow.flowproperties", pd=pd_shim.PD, pseudopressure_threephase=pp_stub, alpha_multiphase=alpha_stub, **SS.rebind())
+    job.encoded(mod, "FlowPropertiesTwoPhase.from_table", "FlowProperties.__init__")
+    job.stub("pseudopressure_threephase / alpha_multiphase inside from_table: arbitrary increasing / positive arrays (what pp[n] and C16 establish)")
+    job.bound(table_rows=n, p_i=f"strictly between table rows {node} and {node + 1}")
+    ps, dom = _grid(n)
+    cols = ["Bo", "Bg", "Bw", "Rs", "Rv", "mu_o", "mu_g", "mu_w", "So"]
+    tab = {"pressure": SymArray(ps, "f8"), "pseudopressure": SymArray([fresh(f"junk{k}") for k in range(n)], "f8")}
+    for c in cols:
+        tab[c] = SymArray([fresh(f"{c}{k}", pos=True) for k in range(n)], "f8")
+    krt = {"So": SymArray([Q(0), Q(1)], "f8"), "Sg": SymArray([Q(1), Q(0)], "f8"), "Sw": SymArray([Q(0), Q(0)], "f8")}
+    for c in KR_FUNCS:
+        krt[c] = SymArray([fresh(f"{c}{k}", pos=True) for k in range(2)], "f8")
+    vs, rdom = box(None, rho_o0=("0.1", 100), rho_g0=("0.001", 10), rho_w0=("0.1", 100), phi=("0.01", 1), Sw=(0, "0.5"))
+    s_ = fresh("s", pos=True)
+    dom = dom + rdom + [T.b_lt(P(s_), T.ONE)]
+    pi = ps[node] + s_ * (ps[node + 1] - ps[node])
+    rp = (replay_table_between, {"n": n, "node": node})
+
+    def run():
+        rec.clear()
+        obj = mod.FlowPropertiesTwoPhase.from_table(tab, krt, {k: vs[k] for k in RHO}, vs["phi"], vs["Sw"], pi)
+        return obj.m_i, rec["pp"]
+    for k, pr in enumerate(paths(job, run, dom, max_paths=64, catch=(Exception,))):
+        tag = f"table[{n}, p_i between rows {node} and {node + 1}]"
+        if pr.exc is not None:
+            if isinstance(pr.exc, SS.NonMonotoneAbscissae):
+                continue
+            job.prove(f"{tag}/raises {type(pr.exc).__name__}[path{k}]", pr.pc, bound=f"{n}-row table", replay=rp, note=repr(pr.exc)[:100])
+            continue
+        mi, pp = pr.value
+        a, b = pp.d[node], pp.d[node + 1]
+        job.prove(f"{tag}/m_i >= 1[path{k}]", pr.pc + [T.b_lt(P(mi), T.ONE)], bound=f"{n}-row table", replay=rp)
+        job.prove(f"{tag}/m_i <= (1 + r)^2 / (4 r), r = m[{node + 1}] / m[{node}][path{k}]", pr.pc + [T.b_lt(P((a + b) * (a + b)), P(4 * a * b * mi))], bound=f"{n}-row table", replay=rp)
+        job.prove(f"{tag}/reach[path{k}]", pr.pc, expect="sat")
+
+
 def jobs(tier):
     out = [("pp3", lambda j: job_pp(j, 3)), ("pp3-labelled", lambda j: job_pp(j, 3, labelled=True)),
            ("pp3-int-pressure", lambda j: job_pp(j, 3, pdtype="i8")), ("pp3-krw-zero-at-one-row", lambda j: job_pp(j, 3, krw_zero_row=1)),
@@ -449,6 +535,6 @@ def jobs(tier):
         out += [("pp4", lambda j: job_pp(j, 4)), ("pp5", lambda j: job_pp(j, 5)), ("pp7", lambda j: job_pp(j, 7)), ("pp4-labelled", lambda j: job_pp(j, 4, labelled=True)),
                 ("table4-node1", lambda j: job_table(j, 4, 1)), ("table4-node3", lambda j: job_table(j, 4, 3)), ("table4-node2-kr-descending", lambda j: job_table(j, 4, 2, True)),
                 ("pp12", lambda j: job_pp(j, 12)), ("table6-node3", lambda j: job_table(j, 6, 3))]
-    out += [("table3-node2-densities-keyed-g-o-w", lambda j: job_table(j, 3, 2, False, ("rho_g0", "rho_o0", "rho_w0"))), ("table3-node1", lambda j: job_table(j, 3, 1)), ("table3-node2", lambda j: job_table(j, 3, 2)),
+    out += [("table3-initial-pressure-between-rows", lambda j: job_table_between(j, 3, 1)), ("table3-node2-densities-keyed-g-o-w", lambda j: job_table(j, 3, 2, False, ("rho_g0", "rho_o0", "rho_w0"))), ("table3-node1", lambda j: job_table(j, 3, 1)), ("table3-node2", lambda j: job_table(j, 3, 2)),
             ("table3-node1-kr-descending", lambda j: job_table(j, 3, 1, True))]
     return out
